@@ -195,8 +195,9 @@ def RelStep : Outcome (CState × RoundState) → Outcome (CState × RoundState) 
   | _, _ => False
 
 /-- **One step on equivalent states.** -/
-theorem stvStep_lineq (cfg : STVCfg) (init init' : Profile) (q : Int) (ω : STVOracle) (rnd : Nat)
-    (S S2 : CState) (prev : RoundState) (hnr : cfg.transfer ≠ .random) (hcfg : ProfileFreeChoice cfg)
+theorem stvStep_lineq_of (cfg : STVCfg) (init init' : Profile) (q : Int) (ω : STVOracle) (rnd : Nat)
+    (S S2 : CState) (prev : RoundState) (hnr : cfg.transfer ≠ .random)
+    (hec : electChoice cfg q ω rnd S prev = electChoice cfg q ω rnd S2 prev)
     (hinit : firstPlaceVotes init = firstPlaceVotes init') (hS : SameCount S S2) :
     RelStep (stvStep cfg init q ω rnd S prev) (stvStep cfg init' q ω rnd S2 prev) := by
   obtain ⟨hh, hn, hb⟩ := hS
@@ -204,7 +205,7 @@ theorem stvStep_lineq (cfg : STVCfg) (init init' : Profile) (q : Int) (ω : STVO
   simp only
   split
   · -- election round
-    rw [electChoice_state_irrelevant cfg q ω rnd S S2 prev hcfg]
+    rw [hec]
     cases he : electChoice cfg q ω rnd S2 prev with
     | ok gt =>
       obtain ⟨g, tbs⟩ := gt
@@ -260,5 +261,12 @@ theorem stvStep_lineq (cfg : STVCfg) (init init' : Profile) (q : Int) (ω : STVO
         | raised e => simp [bind, Outcome.bind, RelStep]
         | oracleMismatch => simp [bind, Outcome.bind, RelStep]
         | outOfFuel => simp [bind, Outcome.bind, RelStep]
+
+/-- **One step on equivalent states**, configurations whose choice of winners ignores the profile. -/
+theorem stvStep_lineq (cfg : STVCfg) (init init' : Profile) (q : Int) (ω : STVOracle) (rnd : Nat)
+    (S S2 : CState) (prev : RoundState) (hnr : cfg.transfer ≠ .random) (hcfg : ProfileFreeChoice cfg)
+    (hinit : firstPlaceVotes init = firstPlaceVotes init') (hS : SameCount S S2) :
+    RelStep (stvStep cfg init q ω rnd S prev) (stvStep cfg init' q ω rnd S2 prev) :=
+  stvStep_lineq_of cfg init init' q ω rnd S S2 prev hnr (electChoice_state_irrelevant cfg q ω rnd S S2 prev hcfg) hinit hS
 
 end VK
